@@ -13,7 +13,8 @@ from ..engine import Outcome, Prop, compare
 from ..render import COMMA, END, I, K, L, LP, N, RP, T, V, plist, render_script
 MODES = ["sql", "mysql", "postgres", "hql", "mssql", "oracle", "redshift", "snowflake", "bigquery", "spark_sql", "databricks", "sqlite", "vertics", "ibm_db2", "athena"]
 
-KEY_POOL = [(None, "t"), ("a", "t"), ("b", "t"), ("a", "u"), (None, "u"), ("S1", "Orders"), ("b", "Orders"), (None, "Orders")]
+KEY_POOL = [(None, "t"), ("a", "t"), ("b", "t"), ("a", "u"), (None, "u"), ("S1", "Orders"), ("b", "Orders"), (None, "Orders"),
+            ("dbo", "t"), ("public", "t"), ("public", "u")]  # incl. the schemas some databases use by default
 BASE_COLS = [("id", "int", None), ("name", "varchar", [10]), ("Code", "int", None), ("amt", "decimal", [10, 2]), ("code_id", "text", None)]  # a name that contains two other column names
 # keyword-shaped column names: legal in CREATE TABLE and in index column lists (C06); ALTER operands reject many keywords, so
 # these columns are only ever named by CREATE INDEX statements
